@@ -93,7 +93,7 @@ def run_case(item):
                     checks.append((f"{tag}:target-unchanged-when-not-fired", nxt2 != nxt))
         for name, neg in checks:
             res["obligations"] += 1
-            r, m, dt = X.solve(p.constraints, [neg])
+            r, m, dt = X.solve(p.constraints, [neg], fast=True)
             res["solver_time"] += dt
             if r == "unsat":
                 res["discharged"] += 1
@@ -109,12 +109,139 @@ def run_case(item):
     return res
 
 
+RBITS = int(__import__('os').environ.get('VERIF_TIMER_BITS', '0')) or 24  # magnitude bound for the Rust u64 timer state (wrap-around of next+period at 2^64 is outside the claim)
+
+
+def run_rust_case(item):
+    """Rust TimerContext::tick_timers / reset from the crate's LLVM IR on symbolic 64-bit state, compared with
+    timer_spec and with the Python TimerScheduler driven by the same values."""
+    tier, case = item
+    X.setup()
+    from engines.rsym import build, interp
+    from pce500.scheduler import TimerScheduler, TimerSource
+
+    img, _b = build.image()
+    K = 4 if tier == "quick" else 6
+    key = "rust:" + case
+    res = {"key": key, "paths": 0, "obligations": 0, "discharged": 0, "unknown": 0, "cex": [], "solver_time": 0.0, "samples": [], "inconclusive": []}
+    names = {"mti_period": 52, "sti_period": 54, "next_mti": 56, "next_sti": 58, "cycle": 60}
+    # zero-extended narrower variables: the high bits are constants, which keeps the bit-blasted adders small
+    V = {n: z3.ZeroExt(64 - RBITS, z3.BitVec("rs_" + n, RBITS)) for n in names}
+    isr0 = z3.BitVec("rs_isr", 8)
+    preserve = case != "rust-no-phase"
+
+    def fn():
+        eng = core.engine()
+        if case == "disabled":
+            enabled = 0
+        else:
+            enabled = 1
+        if case == "zero-period":
+            eng.assume(V["mti_period"] == 0)
+        elif case != "reset":
+            eng.assume(z3.UGE(V["mti_period"], 1))
+        if case not in ("reset",):
+            eng.assume(z3.Or(V["sti_period"] == 0, z3.UGE(V["sti_period"], 1)))
+            eng.assume(z3.Or(V["mti_period"] == 0, z3.ULT(V["cycle"], V["next_mti"] + K * V["mti_period"])))
+            eng.assume(z3.Or(V["sti_period"] == 0, z3.ULT(V["cycle"], V["next_sti"] + K * V["sti_period"])))
+        ins = {50: enabled, 51: 1 if preserve else 0, 62: z3.ZeroExt(24, isr0)}
+        ins64 = {i: V[n] for n, i in names.items()}
+        out = {}
+        out64 = {}
+        hooks = {"verif_in": lambda m, i: ins.get(i, 0), "verif_out": lambda m, i, v: out.__setitem__(i, v),
+                 "verif_in64": lambda m, i: ins64.get(i, 0), "verif_out64": lambda m, i, v: out64.__setitem__(i, v),
+                 "verif_load": lambda m, a: 0, "verif_store": lambda m, a, v: None}
+        m = interp.Machine(img, hooks)
+        m.run(img.mod.functions["harness_timer_reset" if case == "reset" else "harness_timer"], [])
+        py = None
+        if case in ("enabled", "zero-period", "disabled"):
+            sch = TimerScheduler.__new__(TimerScheduler)
+            mk = lambda n: core.SymInt.from_term(V[n], 0, (1 << RBITS) - 1)  # noqa: E731
+            sch.mti_period, sch.sti_period = mk("mti_period"), mk("sti_period")
+            sch._next_mti, sch._next_sti = mk("next_mti"), mk("next_sti")
+            sch.enabled = bool(enabled)
+            fired = list(sch.advance(mk("cycle")))
+            py = {"mti": TimerSource.MTI in fired, "sti": TimerSource.STI in fired, "nm": sch._next_mti, "ns": sch._next_sti}
+        return (out, out64), py, enabled
+
+    try:
+        paths, stats = explore(fn, max_paths=5000, deadline_s=200, timeout_ms=8000)
+    except core.PathLimit as e:
+        res["inconclusive"].append(str(e))
+        return res
+    res["paths"] = len(paths)
+    res["solver_time"] += stats.solver_time
+    T = lambda v, b: interp.to_term(v, b)  # noqa: E731
+    t_start = time.time()
+    for p in paths:
+        if time.time() - t_start > 240:
+            res["inconclusive"].append("obligation time budget (240 s) exhausted")
+            break
+        if p.status != "ok":
+            if p.status == "inconclusive":
+                res["inconclusive"].append(p.detail[:100])
+            else:
+                res["cex"].append({"key": f"{key}|raises|{type(p.exc).__name__}", "summary": repr(p.exc)[:200], "payload": None})
+            continue
+        (out, out64), py, enabled = p.value
+        j64 = lambda i: T(out64[i], 64)  # noqa: E731
+        checks = []
+        if case == "reset":
+            # an enabled timer with a non-zero period is re-armed one period after the reset point
+            checks.append(("reset-mti", z3.And(z3.UGT(V["mti_period"], 0), j64(2) != V["cycle"] + V["mti_period"])))
+            checks.append(("reset-sti", z3.And(z3.UGT(V["sti_period"], 0), j64(4) != V["cycle"] + V["sti_period"])))
+        else:
+            isr1 = z3.Extract(7, 0, T(out[6], 32))
+            want_isr = isr0
+            for tag, fi, ni, bit in (("mti", 0, 2, 1), ("sti", 1, 4, 2)):
+                per, nxt, cyc = V[tag + "_period"], V["next_" + tag], V["cycle"]
+                fired = T(out[fi], 32) != 0
+                nxt2 = j64(ni)
+                should = z3.And(z3.BoolVal(bool(enabled)), z3.UGT(per, 0), z3.UGE(cyc, nxt))
+                checks.append((f"{tag}:fires-iff-due", fired != should))
+                checks.append((f"{tag}:next-strictly-in-future", z3.And(fired, z3.Not(z3.UGT(nxt2, cyc)))))
+                if preserve:
+                    checks.append((f"{tag}:next-not-more-than-one-period-ahead", z3.And(fired, z3.Not(z3.ULE(nxt2 - per, cyc)))))
+                    checks.append((f"{tag}:phase-preserved", z3.And(fired, z3.Not(z3.Or(*[nxt2 == nxt + k * per for k in range(1, K + 2)])))))
+                else:
+                    checks.append((f"{tag}:rearmed-one-period-from-now", z3.And(fired, nxt2 != cyc + per)))
+                checks.append((f"{tag}:target-unchanged-when-not-fired", z3.And(z3.Not(fired), nxt2 != nxt)))
+                want_isr = z3.If(should, want_isr | bit, want_isr)
+                if py is not None:
+                    checks.append((f"{tag}:rust-vs-python-fired", fired != z3.BoolVal(bool(py[tag]))))
+                    checks.append((f"{tag}:rust-vs-python-next", nxt2 != core.term_of(py["n" + tag[0]], 64)))
+            checks.append(("status-bits-set-for-every-fired-timer", isr1 != want_isr))
+        for name, neg in checks:
+            res["obligations"] += 1
+            r, m_, dt = X.solve(p.constraints, [neg], fast=True)
+            res["solver_time"] += dt
+            if r == "unsat":
+                res["discharged"] += 1
+                if len(res["samples"]) < 1:
+                    res["samples"].append({"case": key, "obligation": name, "negated_post_head": neg.sexpr()[:140]})
+            elif r == "sat":
+                ev = lambda t: m_.eval(t, model_completion=True).as_long()  # noqa: E731
+                payload = {"property": "C13", "kind": "timer", "key": f"{key}|{name}", "case": case, "obligation": name, "rust": True, "K": K,
+                           "state": {n: ev(V[n]) for n in names}, "isr": ev(isr0), "enabled": enabled, "preserve": preserve}
+                res["cex"].append({"key": f"{key}|{name}", "summary": f"{key}: {name}", "payload": payload})
+            else:
+                res["unknown"] += 1
+    return res
+
+
 def main(tier):
     t0 = time.time()
     X.setup()
     rep = common.Report("C13")
     cases = ["enabled", "disabled", "zero-period", "reset"]
     results = common.pool_map(run_case, [(tier, c) for c in cases])
+    from engines.rsym import build
+
+    build.ensure_built()
+    build.image()
+    rs_cases = ["enabled", "disabled", "zero-period", "reset", "rust-no-phase"]
+    results += common.pool_map(run_rust_case, [(tier, c) for c in rs_cases])
+    cases = cases + ["rust:" + c for c in rs_cases]
     tot = {k: 0 for k in ("paths", "obligations", "discharged", "unknown")}
     solver_time = 0.0
     samples, inconcl, cex = [], [], {}
@@ -147,9 +274,9 @@ def main(tier):
         "samples": samples[:6], "checker_cmd": "./check C13 --tier " + tier, "trusted_base": ["z3 5.1.0", "engines/pysym"],
         "explanation": "Inductive step over arbitrary scheduler states: for all periods, targets and cycle values (40-bit, gap below K periods) z3 decides fired <=> enabled and period>0 and cycle>=next; next' > cycle; next' - period <= cycle; next' = next + k*period (phase kept, so ticking every cycle fires exactly once per boundary); untouched target when not fired; reset = base + period.",
         "solver_time_s": round(solver_time, 2),
-        "functions_encoded": ["pce500.scheduler.TimerScheduler.advance", "TimerScheduler.reset"],
+        "functions_encoded": ["pce500.scheduler.TimerScheduler.advance", "TimerScheduler.reset", "Rust (LLVM IR): sc62015_core::timer::TimerContext::tick_timers (both preserve_phase settings), reset, MemoryImage::read/write_internal_byte"],
         "bounds": {"unwinding": f"catch-up loop unwound {K} times (gap < {K} periods, unwinding assumption in the path condition)", "magnitudes": f"{BITS}-bit periods / cycle counter",
-                   "rust_timer": "sc62015/core/src/timer.rs is outside this check until the rsym engine carries TimerContext::tick_timers"},
+                   "rust_timer": f"u64 state below 2^{RBITS} (wrapping_add at 2^64 is outside the claim); tick_timers_with_keyboard / CoreRuntime stepping are outside"},
     }
     assumptions = [f"cycle counter and periods below 2^{BITS} (Python ints are unbounded; the engine's interval guard would flag anything larger as inconclusive)",
                    "ISR bit setting by PCE500Emulator._tick_timers is part of C12's machine model, not of this scheduler check"]
